@@ -215,7 +215,10 @@ def find(
                     os.path.dirname(e["file"]),
                 )
                 if include_file:
-                    state.insert_file(include_file)
+                    # include files use the same language as the file itself,
+                    # irrespective of file extension.
+                    lang = state.langs[state._get_realpath(e["file"])]
+                    state.insert_file(include_file, lang)
                     state.associate(include_file, file_platform)
 
             # Process the file, to build a list of associate nodes
